@@ -292,9 +292,14 @@ impl Rebuildable for Declaration
 				}
 				match structural_type
 				{
-					Ok(ValueType::Struct { identifier }) =>
+					Ok(ValueType::Struct { identifier })
+						if identifier.resolution_id > 0 =>
 					{
 						write!(&mut buffer, "struct#{}", identify(identifier))?;
+					}
+					Ok(ValueType::Struct { identifier: _ }) =>
+					{
+						write!(&mut buffer, "struct")?;
 					}
 					Ok(ValueType::Word {
 						identifier,
